@@ -235,8 +235,12 @@ CLAIMED = {
              "C04_refuted_subprogram_locals documents the open finding. Tie: for random declaration sets (main program, subprogram classes and instances, "
              "locals and array-map variables of all formats) the REAL layout (descriptor addresses, collect positions, scratch address) must equal the "
              "model's, and real generated programs that write one variable (constants and expressions of other variables) are executed in the "
-             "kernel-validated Coq ISA model: every other variable must keep its value.",
-        note=TB + "Partial: hash-map variables, Dict structures and packet variables are not covered (no hash map in the ISA model; packets: C07); temporaries "
+             "kernel-validated Coq ISA model: every other variable must keep its value. C04_dict_layout / C04_items_disjoint / C04_scratch_below_items: "
+             "Dict key and value structures between locals in ANY declaration order are pairwise disjoint and temporaries lie below all of them; tie: "
+             "programs declaring Dicts, locals and hash-map variables in random order, every local, member and hash variable written once in random order "
+             "(hash-variable writes take temporaries in between), optionally update(): real key / value offsets must equal the model's and every variable "
+             "and the stored map entry must hold what was written.",
+        note=TB + "Partial: packet variables are C07's; hash-map helper calls are served by coq/Corr/C09.v (kernel-validated by random call sequences); temporaries "
              "of expression evaluation are covered by execution only. Known finding: subprogram locals share their bytes (golden-pinned).",
         technique="Coq proof by induction over declaration lists + layout comparison + execution of real generated programs in a kernel-validated ISA model",
         ref="5/C04"),
@@ -270,7 +274,7 @@ CLAIMED = {
              "bpf(); the map contents are handed to the REAL generated program (reads / writes of hash variables, lookups of present and absent keys with member "
              "reads / writes and Else branch, updates incl. a full map) executed in the Coq ISA model extended with hash-map helper calls, and handed back; "
              "every value and entry must be what the other side stored.",
-        note=TB + "Partial: the hash-map helper calls of the executable model (coq/Corr/C09.v) are NOT validated against the kernel; deletion from the program "
+        note=TB + "Partial: the hash-map helper calls of the executable model (coq/Corr/C09.v) are validated against the kernel's hash maps only by random helper-call sequences (harness/hash_check.py, every run; an update of an existing key is modelled in place); deletion from the program "
              "side and LRU maps are not exercised; no model/implementation correspondence term beyond the oracle (the tie is the exchange of map contents).",
         technique="Coq proof of the table laws + both real sides (Python API on a bpf() stand-in, generated program in the ISA model with hash maps) on shared map contents",
         ref="5/C09"),
@@ -320,7 +324,9 @@ CLAIMED = {
              "recorded race. Tie: the REAL ParallelEtherCat.run() runs in forked processes whose operations on the lock directory, the pinned table and the "
              "attachment are gated and interleaved by random schedules (and the race schedule); the final shared state and every participant's position must "
              "equal the model's, the properties are checked after every step; the REAL FMMULock is created concurrently with colliding draws and the creator "
-             "interrupted after creating the file.",
+             "interrupted after creating the file; allocations run against removals on the same map byte (one side stopped between reading and writing the "
+             "byte, the other side must report that it waits for the file lock), the windows handed out must equal the model's for the order in which the lock "
+             "was held (C23_split_release_refuted: without that exclusion a window is handed out twice).",
         note=TB + "Partial: netlink attach / detach, bpf obj_pin / obj_get / create_map and the raw socket are stand-ins inside the children (files in a scratch "
              "root; the file-system calls are real); crashes between operations are not modelled; Known finding: the dispatcher does not stay installed (leaver / fresh starter race).",
         technique="Coq finite-state closure proof + invariant proof over histories + real multi-process executions gated at every shared operation",
